@@ -1362,6 +1362,7 @@ structure RefS (r : SRow) (e : EagerS) : Prop where
   keys : ∃ ks, r.keys = .ok ks ∧ ks.Nodup ∧ ∀ k, k ∈ ks ↔ (dget e.d k).isSome
   len : r.len = .ok e.d.length
   miss : r.missing.toOption = e.miss
+  inv : r.invOf = e.inv
 
 theorem mem_keys_of_equiv {a b : Dict} (h : ∀ k, dget a k = dget b k) (k : Key) : k ∈ a.map (·.1) ↔ k ∈ b.map (·.1) := by
   rw [← dget_isSome_iff_mem, ← dget_isSome_iff_mem, h k]
@@ -1374,12 +1375,13 @@ theorem length_of_keys {ks : List Key} {d : Dict} (hk : ks.Nodup) (hd : (d.map (
   have := length_eq_of_same_members ks (d.map (·.1)) hk hd (fun k => by rw [h k, dget_isSome_iff_mem])
   simpa using this
 
-theorem refS_plain (d : Dict) (hn : (d.map (·.1)).Nodup) (lab) : RefS (.plain d) ⟨d, lab, none⟩ where
+theorem refS_plain (d : Dict) (hn : (d.map (·.1)).Nodup) (lab) : RefS (.plain d) ⟨d, lab, none, []⟩ where
   get := by intro k; simp only [SRow.get, optRes]; cases dget d k <;> rfl
   items := ⟨d, rfl, hn, fun _ => rfl⟩
   keys := ⟨d.map (·.1), rfl, hn, fun k => (dget_isSome_iff_mem d k).symm⟩
   len := rfl
   miss := rfl
+  inv := rfl
 
 theorem nodup_filter_keys {d : Dict} (q : Key → Bool) (hn : (d.map (·.1)).Nodup) :
     ((d.filter (fun p => q p.1)).map (·.1)).Nodup := by
@@ -1387,7 +1389,7 @@ theorem nodup_filter_keys {d : Dict} (q : Key → Bool) (hn : (d.map (·.1)).Nod
   exact this.nodup hn
 
 theorem refS_drop {r : SRow} {e : EagerS} (h : RefS r e) (hw : WFS e) (ds : List Key) (lab) :
-    RefS (.drop r ds) ⟨e.d.filter (fun p => !ds.contains p.1), lab, e.miss⟩ := by
+    RefS (.drop r ds) ⟨e.d.filter (fun p => !ds.contains p.1), lab, e.miss, e.inv⟩ := by
   obtain ⟨its, hits, hnd, heq⟩ := h.items
   obtain ⟨ks, hks, hknd, hkm⟩ := h.keys
   have hkeys : ∀ k, k ∈ ks.filter (fun k => !ds.contains k) ↔ (dget (e.d.filter (fun p => !ds.contains p.1)) k).isSome := by
@@ -1396,7 +1398,7 @@ theorem refS_drop {r : SRow} {e : EagerS} (h : RefS r e) (hw : WFS e) (ds : List
     by_cases hc : k ∈ ds <;> simp [hc]
   have hknd' : (ks.filter (fun k => !ds.contains k)).Nodup := (List.filter_sublist).nodup hknd
   refine ⟨?_, ⟨its.filter (fun p => !ds.contains p.1), by simp [SRow.items, hits], nodup_filter_keys (fun k => !ds.contains k) hnd, ?_⟩,
-    ⟨ks.filter (fun k => !ds.contains k), by simp [SRow.keys, hks], hknd', hkeys⟩, ?_, h.miss⟩
+    ⟨ks.filter (fun k => !ds.contains k), by simp [SRow.keys, hks], hknd', hkeys⟩, ?_, h.miss, h.inv⟩
   · intro k
     simp only [SRow.get, dget_filter_key e.d (fun k => !ds.contains k) k]
     by_cases hc : k ∈ ds
@@ -1444,7 +1446,7 @@ theorem nodup_labelDict {d : Dict} (key : Key) (hn : (d.map (·.1)).Nodup) : ((l
     simp at hb; subst hb; subst hab; exact hkey ha
 
 theorem refS_label {r : SRow} {e : EagerS} (h : RefS r e) (hw : WFS e) (key : Key) (t : Option String) (lab) :
-    RefS (.label r key t) ⟨labelDict e.d key, lab, e.miss⟩ := by
+    RefS (.label r key t) ⟨labelDict e.d key, lab, e.miss, e.inv⟩ := by
   obtain ⟨its, hits, hnd, heq⟩ := h.items
   obtain ⟨ks, hks, hknd, hkm⟩ := h.keys
   have hcont : (its.map (·.1)).contains key = (e.d.map (·.1)).contains key := by
@@ -1469,7 +1471,7 @@ theorem refS_label {r : SRow} {e : EagerS} (h : RefS r e) (hw : WFS e) (key : Ke
     | some v => simp
     | none => by_cases hk : k = key <;> simp [hk]
   have hknd' := nodup_kunion ks [key] hknd
-  refine ⟨?_, ⟨labelDict its key, ?_, nodup_labelDict key hnd, ?_⟩, ⟨kunion ks [key], by simp [SRow.keys, hks], hknd', hkeys⟩, ?_, h.miss⟩
+  refine ⟨?_, ⟨labelDict its key, ?_, nodup_labelDict key hnd, ?_⟩, ⟨kunion ks [key], by simp [SRow.keys, hks], hknd', hkeys⟩, ?_, h.miss, h.inv⟩
   · intro k
     simp only [SRow.get, h.get k, dget_labelDict]
     cases hd : dget e.d k with
@@ -1654,7 +1656,7 @@ theorem refS_encode {r : SRow} {e : EagerS} (h : RefS r e) (hw : WFS e) (enc : L
         simp [hm, hv0, Except.toOption]
       · simp [hm]
   have hknd' := nodup_kunion ks (nspOf enc) hknd
-  refine ⟨⟨?_, ⟨t1' ++ t2, hitems, ?_, ?_⟩, ⟨kunion ks (nspOf enc), by simp [SRow.keys, hks], hknd', hkeys⟩, ?_, h.miss⟩, hdn⟩
+  refine ⟨⟨?_, ⟨t1' ++ t2, hitems, ?_, ?_⟩, ⟨kunion ks (nspOf enc), by simp [SRow.keys, hks], hknd', hkeys⟩, ?_, h.miss, h.inv⟩, hdn⟩
   · intro k
     simp only [SRow.get, h.get k, hdg k]
     cases hdk : dget e.d k with
@@ -1831,7 +1833,7 @@ theorem swapList_swapList (m : KMap) : swapList (swapList m) = m := by
 
 theorem refS_head {r : SRow} {e : EagerS} (h : RefS r e) (hw : WFS e) (inv : KMap) (hb : Bij inv) (d' : Dict)
     (hd : renameE inv e.d = .ok d') (lab) :
-    RefS (.head r (swapList inv) (swapMap (swapList inv))) ⟨d', lab, e.miss⟩ ∧ (d'.map (·.1)).Nodup := by
+    RefS (.head r (swapList inv) (swapMap (swapList inv))) ⟨d', lab, e.miss, inv⟩ ∧ (d'.map (·.1)).Nodup := by
   obtain ⟨its, hits, hnd, heq⟩ := h.items
   obtain ⟨ks, hks, hknd, hkm⟩ := h.keys
   have hinv : swapMap (swapList inv) = inv := by
@@ -1861,7 +1863,7 @@ theorem refS_head {r : SRow} {e : EagerS} (h : RefS r e) (hw : WFS e) (inv : KMa
       | some k =>
         simp only [hf] at hs
         exact ⟨k, (hkm k).2 hs, (hb.fwd_iff n k).1 hf⟩
-  refine ⟨⟨?_, ⟨its', ?_, hdn'' hnd, ?_⟩, ⟨ks', ?_, hknd' hknd, hkeys⟩, ?_, h.miss⟩, hdn'⟩
+  refine ⟨⟨?_, ⟨its', ?_, hdn'' hnd, ?_⟩, ⟨ks', ?_, hknd' hknd, hkeys⟩, ?_, h.miss, hinv⟩, hdn'⟩
   · intro n
     simp only [SRow.get, hdg n]
     cases hf : dget (swapList inv) n with
@@ -1902,7 +1904,7 @@ theorem refS_lazy_simple (d : Dict) (loader : Bool) (enc : List (Key × Enc)) (m
     · simp only [hem, if_true, map_id_entry] at hb
       simp at hb; subst hb
       have hcell : (mkCell loader d).get = d := mkCell_get _ _
-      refine ⟨⟨?_, ⟨d, ?_, hn, fun _ => rfl⟩, ⟨d.map (·.1), ?_, hn, fun k => (dget_isSome_iff_mem d k).symm⟩, ?_, rfl⟩, ⟨hn, by simp⟩⟩
+      refine ⟨⟨?_, ⟨d, ?_, hn, fun _ => rfl⟩, ⟨d.map (·.1), ?_, hn, fun k => (dget_isSome_iff_mem d k).symm⟩, ?_, rfl, rfl⟩, ⟨hn, by simp⟩⟩
       · intro k
         simp only [baseS, SRow.get, hcell, dget, Option.getD, hem]
         cases dget d k <;> simp [optRes]
@@ -1925,7 +1927,7 @@ theorem refS_lazy_simple (d : Dict) (loader : Bool) (enc : List (Key × Enc)) (m
           induction d' with
           | nil => rfl
           | cons p t ih => simp
-        refine ⟨⟨?_, ⟨d', ?_, hn', fun _ => rfl⟩, ⟨d.map (·.1), ?_, hn, hkeys⟩, ?_, rfl⟩, ⟨hn', by simp⟩⟩
+        refine ⟨⟨?_, ⟨d', ?_, hn', fun _ => rfl⟩, ⟨d.map (·.1), ?_, hn, hkeys⟩, ?_, rfl, rfl⟩, ⟨hn', by simp⟩⟩
         · intro k
           simp only [baseS, SRow.get, hcell, dget, Option.getD, hem', a2 k]
           cases hd : dget d k with
@@ -2133,7 +2135,7 @@ theorem stageS_refines (st : Stage) (hst : notCat st)
           refine ⟨?_, by intro he; split at he <;> (try split at he) <;> simp at he⟩
           intro e' he
           have hwf : ∀ lab : Option (Key × Option String), (∀ k t, lab = some (k, t) → e.lab = some (k, t) ∧ cols.contains k = false) →
-              WFS ⟨e.d.filter (fun p => !cols.contains p.1), lab, e.miss⟩ := by
+              WFS ⟨e.d.filter (fun p => !cols.contains p.1), lab, e.miss, e.inv⟩ := by
             intro lab hl
             refine ⟨nodup_filter_keys (fun k => !cols.contains k) hw.nodup, ?_⟩
             intro k t hlk
